@@ -54,7 +54,8 @@ Fixpoint t2_walk (fuel : nat) (em : list Z) (dend : Z) (skip : ranges) (off : Z)
       end
   end.
 
-(* _read_capability_data + _read_ndef_data on the readable image *)
+(* _read_capability_data + the TLV walk of _read_ndef_data on the readable image (the code up to the repair
+   c08-16; [t2_reader] below adds the final test) *)
 Definition t2_read (em : list Z) : res (option layout) :=
   match rd em 12, rd em 13, rd em 14, rd em 15 with
   | Ok b12, Ok b13, Ok b14, Ok b15 =>
@@ -73,6 +74,14 @@ Definition t2_read (em : list Z) : res (option layout) :=
   | _, _, _, _ => Ok None
   end.
 
+(* _read_ndef_data as it is after the repair c08-16-tt2-ndef-tlv-exceeds-data-area: the TLV walk followed by
+   the test that the NDEF TLV lies inside the data area *)
+Definition t2_reader (em : list Z) : res (option layout) :=
+  match t2_read em with
+  | Ok (Some L) => if ndef_fits em L then Ok (Some L) else Ok None
+  | r => r
+  end.
+
 Definition classify (r : res (option layout)) : fresh_t :=
   match r with
   | Ok None => NoNdef
@@ -82,7 +91,7 @@ Definition classify (r : res (option layout)) : fresh_t :=
   | Hang => Failed Hang
   end.
 (* tag.ndef of a new tag object activated on memory m *)
-Definition t2_fresh (m : list Z) : fresh_t := classify (t2_read (view m)).
+Definition t2_fresh (m : list Z) : fresh_t := classify (t2_reader (view m)).
 
 (* ---- _write_ndef_data (after the repairs c01-tt2-empty-message and c02-tt2-length-commit) ---- *)
 Definition straddle (off : Z) : bool := negb (Z.shiftr (off + 3) 2 =? Z.shiftr (off + 1) 2).
@@ -96,7 +105,7 @@ Definition t2_phases (L : layout) (d : list Z) : list phase :=
 (* tag.ndef.octets = d on a tag with memory m: result and the WRITE commands executed *)
 Definition t2_write (m d : list Z) : res unit * list write :=
   let em := view m in
-  match t2_read em with
+  match t2_reader em with
   | Ok (Some L) =>
     if negb (l_wr L) then (Crash AttributeErr, [])       (* "tag ndef area is not writeable" *)
     else if l_cap L <? len d then (Err ValueError, [])   (* "data length exceeds tag capacity" *)
@@ -127,7 +136,7 @@ Definition ph_format (L : layout) (wipe : option Z) : phase := fun c =>
   end.
 Definition t2_format (m : list Z) (wipe : option Z) : res bool * list write :=
   let em := view m in
-  match t2_read em with
+  match t2_reader em with
   | Ok (Some L) =>
     if negb (l_wr L) then (Ok false, [])
     else let p := run_phases 4 (len m) em [ph_format L wipe] [] in
@@ -139,7 +148,7 @@ Definition t2_format (m : list Z) (wipe : option Z) : res bool * list write :=
 (* ---- well-formed layout (DESIGN.md appendix D), as a decidable predicate on the memory ---- *)
 Definition wf_layoutb (m : list Z) : bool :=
   (Nat.eqb (length m mod 4) 0) && (16 <=? len m) &&
-  match t2_read (view m) with
+  match t2_reader (view m) with
   | Ok (Some L) =>
     l_rd L && l_wr L && (l_dend L <=? len m) && (l_hw L <=? l_off L) && (16 <=? l_off L) && (l_off L + 1 <? l_dend L)
     && negb (in_skip (l_skip L) (l_off L)) && negb (in_skip (l_skip L) (l_off L + 1))
@@ -150,7 +159,7 @@ Definition wf_layout (m : list Z) : Prop := wf_layoutb m = true.
 
 (* the layout found by the reader (for statements) *)
 Definition t2_layout (m : list Z) : option layout :=
-  match t2_read (view m) with Ok (Some L) => Some L | _ => None end.
+  match t2_reader (view m) with Ok (Some L) => Some L | _ => None end.
 
 
 (* ---- observations used by the correspondence run and by the theorems ---- *)
@@ -159,7 +168,7 @@ Fixpoint cut_mems (m : list Z) (ws : list write) : list (list Z) :=
   m :: match ws with [] => [] | w :: r => cut_mems (apply1 m w) r end.
 (* capacity reported by a fresh reader (None if there is no NDEF) *)
 Definition t2_capacity (m : list Z) : option Z :=
-  match t2_read (view m) with Ok (Some L) => Some (l_cap L) | _ => None end.
+  match t2_reader (view m) with Ok (Some L) => Some (l_cap L) | _ => None end.
 Definition t2_write_obs (m d : list Z) :=
   let p := t2_write m d in
   let m' := apply_ws m (snd p) in
@@ -178,7 +187,7 @@ Definition t2_free_after_tag (L : layout) : Z :=
         refutation witness in Props/C02_tlv.v; an empty message is not modelled here) ---- *)
 Definition t2_write_unrepaired (m d : list Z) : res unit * list write :=
   let em := view m in
-  match t2_read em with
+  match t2_reader em with
   | Ok (Some L) =>
     if negb (l_wr L) then (Crash AttributeErr, [])
     else if l_cap L <? len d then (Err ValueError, [])
